@@ -500,7 +500,9 @@ func (em *EModel) onReturn(r *run, err error) {
 		if res.End == "" {
 			res.End = "quiescent"
 		}
-		if len(cs) > 0 {
+		if len(cs) > 0 && r.cancelled {
+			r.violate("C15.return-value", fmt.Sprintf("context cancelled at event %d with work left (%v satisfied), Execute returned nil", r.cancelSeq, cs))
+		} else if len(cs) > 0 {
 			r.violate("C02.not-quiescent", fmt.Sprintf("Execute returned nil after %d firing(s) (MaxCycle %d) although %v are satisfied on the final facts", em.firings, r.sc.Knobs.MaxCycle, cs))
 		}
 		if r.sc.Knobs.Listeners > 0 && em.cycle > 0 {
